@@ -29,10 +29,10 @@ class LoopSpec(object):
             raise NotImplementedError('LoopSpec for "for" loops is provided by ForSpec')
         it = E.new_bool('%s.iterate' % self.label)
         if E.decide(it.t):
-            # an arbitrary iteration
+            # an arbitrary iteration (the variant is sampled at the loop head, before the guard, which may have effects)
+            v0 = self.variant(I, frame) if self.variant else None
             if not I.truth(I.eval(node.test, frame)):
                 raise PathEnd('guard false in iteration branch')
-            v0 = self.variant(I, frame) if self.variant else None
             try:
                 I.exec_block(node.body, frame)
             except _Break:
